@@ -92,6 +92,12 @@ func runC01(r *Run) {
 	}
 
 	r.checkVerifyFlow(P)
+	// an operation changes the state only through the chain of its own type (recover/deactivate against the
+	// recovery commitment, update against the update commitment) and leaves exactly the prescribed commitments
+	// behind: the phase wiring of Resolve and the per-type effect rows (shared with C03)
+	r.checkFullThenUpdate(P)
+	r.checkResolveFlow(P)
+	r.checkEffectTable(P, false)
 
 	// --- C01.reveal.<type> in both modes
 	for _, role := range opRoles {
